@@ -1,5 +1,5 @@
 (* Proofs about the Once / MemoizeFunc models (C16). *)
-From Util Require Import Common.Base Common.ListLemmas Once.Model.
+From Util Require Import Common.Base Common.ListLemmas Once.Model Once.Spec.
 
 (* ------------------------------------------------------------------ generic *)
 Lemma uniq_cnt_le1 {A} (P : A -> bool) (l : list A) :
@@ -801,3 +801,118 @@ Proof.
   exists o. split; [exact Hr|]. cbn [mstep]. rewrite Ha, Hd, Hr. cbn [mcs]. unfold mset.
   apply nth_error_set_nth_same. eapply nth_error_nth_len; eauto.
 Qed.
+
+(* ------------------------------------------------------------------ statements as used by Props_C16.v *)
+Theorem cancelled_caller_gets_canceled_others_progress es :
+  let s := run es in
+  (forall a x src, nth_error (cs s) a = Some x -> cp x = CRet RCanceled src -> cc x = true) /\
+  (quiescent s = true -> forall a x p, nth_error (cs s) a = Some x -> cp x = CAwait p ->
+     cc x = false /\ prom s = Some p /\ done_res s p = None /\
+     exists y ec, nth_error (gs s) p = Some y /\ gp y = GInCb ec) /\
+  (quiescent s = true -> forall a x, nth_error (cs s) a = Some x -> cc x = true ->
+     exists src, cp x = CRet RCanceled src \/ exists r, cp x = CRet r src).
+Proof.
+  cbn. split; [|split].
+  - intros a x src. exact (canceled_only_if_cancelled es a x src).
+  - intros Hq a x p. exact (quiescent_blocked es a x p Hq).
+  - intros Hq a x. exact (quiescent_cancelled_not_blocked es a x Hq).
+Qed.
+
+Theorem memo_publish_before_close_all es :
+  let s := mrun es in
+  (mdone s = true -> exists f o, nth_error (mcs s) f = Some (MRetF o) /\ mresult s = Some o) /\
+  (forall o e, mresult s = Some o -> mresult (mstep s e) = Some o) /\
+  (forall a, nth_error (mcs s) a = Some MWait -> mdone s = true ->
+     exists r, mresult s = Some r /\ nth_error (mcs (mstep s (MWake a))) a = Some (MRet r)).
+Proof.
+  cbn. split; [|split].
+  - exact (memo_publish_before_close es).
+  - intros o e. exact (memo_result_written_once es o e).
+  - intros a. exact (memo_waiter_reads_published es a).
+Qed.
+
+(* ------------------------------------------------------------------ monitors vs. model (bounded)
+   The monitors of Spec.v run on the model's OWN observations and report nothing, for every event sequence the
+   codec-level step accepts: checked exhaustively (vm_compute) up to a depth from the initial state and from
+   the end of hand-picked prefixes that reach the interesting regions (failed attempt with pending SetResult,
+   success, spawner cancelled, callback returning Canceled, cancelled caller at the gate).  The sweep returns the
+   number of accepted sequences it explored, 0 as soon as a monitor reports a failure.
+   (The unbounded statement -- for ALL accepted event lists -- is not proved.) *)
+Definition once_alphabet (h : hst) : list (list N) :=
+  ([1; 0] :: [1; 1] ::
+  flat_map (fun i : nat => let j := N.of_nat i in
+     [[3; j; 0]; [3; j; 1]; [4; j]; [5; j; 0]; [5; j; 1]; [5; j; 2]]) (seq 0 (length (hmap h))))%N.
+
+Fixpoint once_sweep (fuel : nat) (h : hst) (m : monst) : N :=
+  match fuel with
+  | O => 1%N
+  | S f =>
+    fold_left (fun acc e =>
+      match acc with
+      | 0%N => 0%N
+      | _ =>
+        match hstep h e with
+        | None => acc
+        | Some (h', o) =>
+          match mon_once m e o with
+          | (m', []) => match once_sweep f h' m' with 0%N => 0%N | k => (acc + k)%N end
+          | (_, _ :: _) => 0%N
+          end
+        end
+      end) (once_alphabet h) 1%N
+  end.
+
+Fixpoint once_from (prefix : list (list N)) (fuel : nat) (h : hst) (m : monst) : N :=
+  match prefix with
+  | [] => once_sweep fuel h m
+  | e :: t => match hstep h e with
+              | None => 0%N
+              | Some (h', o) => match mon_once m e o with
+                                | (m', []) => once_from t fuel h' m'
+                                | _ => 0%N
+                                end
+              end
+  end.
+
+Definition once_seeds : list (list (list N)) :=
+ [ [[1;0];[3;0;0];[1;0];[3;2;0];[5;1;1];[3;1;0];[1;0];[3;3;0];[5;4;0];[3;4;0]];
+   [[1;0];[3;0;0];[1;0];[3;2;0];[4;0];[5;1;1];[3;1;0];[3;1;0]];
+   [[1;0];[4;0];[3;0;1];[1;0];[3;2;0];[5;1;2];[3;1;0]];
+   [[1;0];[3;0;0];[1;0];[3;2;0];[5;1;2];[3;1;0];[3;1;0];[3;0;0]];
+   [[1;0];[3;0;0];[5;1;0];[3;1;0];[1;0];[4;2]];
+   [[1;0];[3;0;0];[1;0];[3;2;0];[5;1;1];[3;1;0];[3;1;0];[1;0]] ]%N.
+
+Lemma once_monitors_accept_model_bounded :
+  N.ltb 0 (once_sweep 7 hinit monit) = true /\
+  forallb (fun p => N.ltb 0 (once_from p 5 hinit monit)) once_seeds = true.
+Proof. vm_compute. split; reflexivity. Qed.
+
+Definition memo_alphabet (s : mst) : list (list N) :=
+  ([1] :: [3; 2; 0] :: [3; 2; 1] :: [3; 3; 0] :: [3; 3; 2] ::
+  flat_map (fun i : nat => let j := N.of_nat i in [[2; j; 0]; [2; j; 1]]) (seq 0 (length (mcs s))))%N.
+
+Fixpoint memo_sweep (fuel : nat) (s : mst) (m : mmon) : N :=
+  match fuel with
+  | O => 1%N
+  | S f =>
+    fold_left (fun acc e =>
+      match acc with
+      | 0%N => 0%N
+      | _ =>
+        match mhstep s e with
+        | None => acc
+        | Some (s', o) =>
+          match mon_memo m e o with
+          | (m', []) => match memo_sweep f s' m' with 0%N => 0%N | k => (acc + k)%N end
+          | (_, _ :: _) => 0%N
+          end
+        end
+      end) (memo_alphabet s) 1%N
+  end.
+
+Lemma memo_monitors_accept_model_bounded : N.ltb 0 (memo_sweep 7 minit mmonit) = true.
+Proof. vm_compute. reflexivity. Qed.
+
+(* the monitors are not vacuous: which clause of property 16 a checked trace falsifies *)
+Definition flagged (l : list issue) (c : nat) : bool :=
+  existsb (fun i => match i with PropFalse 16 c' _ => Nat.eqb c c' | _ => false end) l.
